@@ -349,6 +349,8 @@ func (i *interpreter) sliceOp(fr *frame, instr *ssa.Slice, x, lo, hi, max value)
 		}
 	}
 	switch xs := x.(type) {
+	case *digestbytes:
+		return xs // b[:] of a digest
 	case *sstr:
 		return xs.slice(fr, lo, hi, instr.Pos())
 	case symstr:
